@@ -20,6 +20,7 @@ import BevySyncModel.Slice.Mark
 import BevySyncModel.Slice.Snap
 import BevySyncModel.Slice.Promo
 import BevySyncModel.Slice.Chain
+import BevySyncModel.Slice.Budget
 /-! `bsmodel`: runs the executable model definitions on the cases the Rust harness prints, one line
 in, one line out (`ok <id>` / `MISMATCH <id> <what>`).  Lines starting with `#` are ignored.
 Only model files are imported (no proofs, no Mathlib), so this links as a native executable.
@@ -812,6 +813,23 @@ def checkPromo (toks : List String) : String :=
       go (Promo.init others) 0 (script.splitOn ";")
   | _ => "MISMATCH parse promo"
 
+/-! ### snapshot against the reliable channel's memory budget (C15, D20): `budget <id> <budget> <used> <sizes> <refused>`;
+`sizes` = dot-separated byte lengths of the snapshot's messages and the marker as the host encodes them, `refused` = 1 when the
+implementation's joiner was disconnected having received nothing -/
+def checkBudget (toks : List String) : String :=
+  match toks with
+  | [budget, used, sizes, refused] =>
+    match budget.toNat?, used.toNat? with
+    | some b, some u =>
+      let szs := (sizes.splitOn ".").filterMap (·.toNat?)
+      if szs.length != (sizes.splitOn ".").length then "MISMATCH parse budget sizes" else
+      let c := Budget.sendAll b { used := u } szs
+      let r := if c.closed then "1" else "0"
+      if r == refused then "ok"
+      else s!"MISMATCH budget: {szs.length} messages of {Budget.total szs} bytes against {b} (used {u}): the model's channel {if c.closed then "refuses the join" else "serves the join"}, the implementation's joiner was {if refused == "1" then "refused" else "served"}"
+    | _, _ => "MISMATCH parse budget numbers"
+  | _ => "MISMATCH parse budget"
+
 /-! ### chains of hand-overs (C07): `chain <id> <script>`; tokens: `f:<who>:<deliver>:<accept>:<progress>` a frame of peer
 `who` (0 = the first host, 1 = its client), `r:<who>` the application of `who` requests a promotion,
 `x:<who>:<srv>:<promo>:<cli>:<clients>` what the implementation shows after that frame (`cli`: 0 no client transport,
@@ -879,6 +897,7 @@ def handle (st : DState) (line : String) : DState × Option String :=
         | "snapj" => checkSnapJ rest
         | "promo" => checkPromo rest
         | "chain" => checkChain rest
+        | "budget" => checkBudget rest
         | _ => "MISMATCH unknown line kind"
       (st, some s!"{r} {id}")
     | _ => (st, some "MISMATCH parse ?")
